@@ -12,8 +12,10 @@
        meta <json|->                 external metadata used by every `set`; optional
        set <uri> | start | append <hex of the packet> | stop | envopen | envclose <k>
        end                           (the device is then closed: storage_stop + driver_close_device)
-   Every case runs in a forked child (fresh descriptor table, cwd = <directory>, CPU limit) so a crash, unbounded
-   recursion or a hang is an observable:  X <id> exit=<code> sig=<signal>  is printed by the parent.
+   Every case runs in a forked child (fresh descriptor table, cwd = <directory>, CPU limit 10 s, wall-clock limit 30 s,
+   the step budget of sysshim.c: exit 79 = one call logged > 4000 lines, exit 80 = the same pwrite reissued 1000 times
+   without progress) so a crash, unbounded recursion or a hang is an observable attributed to the case:
+   X <id> exit=<code> sig=<signal>  is printed by the parent.
    Child output:  I <open descriptors at start>;  per op  O <index> <op>, the S/A lines of sysshim.c,  E open|close <fd>,
    R <ok|err> <state>.                                                                                                */
 #define _GNU_SOURCE
@@ -95,6 +97,7 @@ run_case(const char* kind, const char* dir)
 {
     struct rlimit rl = { 10, 12 };
     setrlimit(RLIMIT_CPU, &rl);
+    alarm(30); /* a call that sleeps instead of spinning: SIGALRM ends the child */
     rl.rlim_cur = rl.rlim_max = 0;
     setrlimit(RLIMIT_CORE, &rl);
     rl.rlim_cur = rl.rlim_max = 256u << 20;
